@@ -227,7 +227,7 @@ func c07Rebuild(r *core.Run, fn *ssa.Function, nest []*ssa.Function, commits, di
 	core.InstrsOf(fn, func(in ssa.Instruction) {
 		if c := core.CallOf(in); c != nil {
 			n := core.CalleeName(c)
-			if strings.HasSuffix(n, ".NewIter") || strings.Contains(n, "createSafeIterator") {
+			if strings.HasSuffix(n, ".NewIter") || isLiveIterHelper(p, c) {
 				iterCalls = append(iterCalls, in)
 			}
 		}
